@@ -340,8 +340,8 @@ func runC19(t *testing.T, test, level string, nScenarios int) {
 		done := make(chan out, nScenarios)
 		for i := 0; i < nScenarios; i++ {
 			go func(i int) {
-				base := gen.Example(int(ev.Seed()) + i*7919)
-				done <- out{i, enumerateFaults(t, r, test, base, int(ev.Seed())+i*104729+17)}
+				base := gen.Example(int(ev.Seed()) + i*15485863)
+				done <- out{i, enumerateFaults(t, r, test, base, int(ev.Seed())+i*32452843+17)}
 			}(i)
 		}
 		for i := 0; i < nScenarios; i++ {
